@@ -135,6 +135,17 @@ def make_assignment(spec, blocks=None):
         if spec.get("ret") == "col":
             return out.reshape(n, 1)
         return out
+    # the same function behind a signature with optional parameters - as many parameters in total as the variable has
+    # parents (the assignment is still called with ONE block of parent columns)
+    k = len(spec.get("coef", []))
+    if k in (2, 3, 4) and int(abs(float(spec["coef"][0])) * 8) % 2 == 0:
+        if k == 2:
+            return lambda Xb, scale=1.0: f(Xb)
+        if k == 3:
+            def f3(Xb, scale=0.5, offset=1.0):
+                return f(Xb)
+            return f3
+        return lambda Xb, a=1, b=0, clip=None: f(Xb)
     return f
 
 
